@@ -47,3 +47,6 @@ package bscript
 // OP_0 or OP_1..OP_16 (0x51..0x60): the m / n positions of a bare multisig template
 //@ func bscript.isSmallIntOp
 //@   ensures[C14.small_int_op] (= result (or (= opcode 0) (and (<= 81 opcode) (<= opcode 96))))
+
+//@ func bscript.NewP2PKHFromAddress
+//@   ensures[p2pkh_from_addr_shape] (=> (= err nil) (and (not (nil? result)) (= (len result) 25)))
